@@ -1620,3 +1620,8 @@ def register_more(E):
 _old_register_all4=register_all
 def register_all(E):
     _old_register_all4(E); register_more(E)
+def register_misc(E):
+    E.model(r' as ToOwned>::to_owned$',m_clone)
+_old_register_all5=register_all
+def register_all(E):
+    _old_register_all5(E); register_misc(E)
